@@ -55,6 +55,10 @@ const (
 	maxWriteRegs = 123  // 0x7B, function code 16
 )
 
+// maxADUSize is the size of the largest Modbus frame: 253 bytes of PDU plus
+// 7 bytes of MBAP header on TCP (on a serial line: 1 address + 2 CRC = 256).
+const maxADUSize = 260
+
 // minRequestLen is the minimum number of PDU bytes for a request with
 // the given function code (not including slave address or checksum,
 // which are part of the ADU).
